@@ -504,12 +504,13 @@ class Exec:
         (objects created after the clone, so sharing them is sound)"""
         for extra in probe.pc[npc:]:
             st.assume(Implies(guard, extra))
-        pc_ = probe.ghost.get('$lcache')
-        if pc_:
-            mine = st.ghost.setdefault('$lcache', {})
-            for k, v in pc_.items():
-                if k not in mine:
-                    mine[k] = v
+        for gk in ('$lcache', '$memq'):
+            pc_ = probe.ghost.get(gk)
+            if pc_:
+                mine = st.ghost.setdefault(gk, {})
+                for k, v in pc_.items():
+                    if k not in mine:
+                        mine[k] = v
 
     def implied(self, st, f):
         """does the path condition imply f?  (small solver query)"""
